@@ -66,6 +66,11 @@ def check(repo: Repo) -> Result:
 
     r4 = res.rule("C18-R4", "out= / augmented assignment yields exactly the numbers of the copying call: the simplification coefficient is applied to the target once, and the returned object is not scaled again", floor=4)
     share(res, r4, "C04", lambda t: c04.coefficient(repo, t, UfuncAnchors(repo)), ["C04-R3"], min_keys=4)
+
+    from rules import c16
+
+    r5 = res.rule("C18-R5", "constructing a quantity from an existing one never re-labels the caller's object: the result is a view (a new object sharing the numbers) or a copy (shared with C16-R2)", floor=3)
+    share(res, r5, "C16", lambda t: c16.accessors(repo, t), ["C16-R2"], want=lambda k: k.startswith("new:") or k in ("copy", "to_value", "Unit.__mul__:copy") or k.startswith("coerce-list"), min_keys=3)
     return res
 
 
@@ -396,4 +401,5 @@ MUTANTS = [
     Mutant("twin-diverges", ARR, "unyt_array.convert_to_units", "(conv_factor, offset) = self.units.get_conversion_factor(\n                    new_units, self.dtype\n                )", "(conv_factor, offset) = self.units.get_conversion_factor(\n                    new_units\n                )", ("C18-R3",)),
     Mutant("as-coeff-unit-simplifies-self", UO, "Unit.as_coeff_unit", "self.expr.as_coeff_Mul()", "self.simplify().expr.as_coeff_Mul()", ("C18-R1",)),
     Mutant("out-alias-by-base", ARR, "unyt_array.__array_ufunc__", "if np.shares_memory(out_arr, out):", "if out_arr.base is out:", ("C18-R4",)),
+    Mutant("new-hands-back-input", ARR, "unyt_array.__new__", "ret = input_array.view(cls)", "ret = input_array if type(input_array) is cls else input_array.view(cls)", ("C18-R5",)),
 ]
